@@ -13,7 +13,7 @@ T2 node sizing: assignment of a (longer or shorter) vector resizes to the declar
    before indexing; cleaning resizes to the declared size.
 """
 import re
-from ..cfg import xrender, norm_facts, expand_locals, Facts, kids, strip, walk, cv, render, call_args, call_object, switch_sections
+from ..cfg import MiniInt, CaseThrow, xrender, norm_facts, expand_locals, Facts, kids, strip, walk, cv, render, call_args, call_object, switch_sections
 from ..cfg import short_loc as _short_loc
 from ..facts import export, export_many, AnalysisBroken
 
@@ -117,27 +117,41 @@ def run(rep, ctx):
             cl = calls(f, qn=VP + "::CleanUpValueNodes")
             asg = [n for n in f.walk() if n["k"] == "CXXOperatorCallExpr" and n.get("op") == "=" and
                    render(call_args(n)[0]) in ("src_", "dest_")]
-            loops = [n for n in f.walk() if n["k"] in ("ForStmt", "CXXForRangeStmt")]
+            # the traversal of the link chain: a loop over brl_ (range-for, iterator or index form) or std::for_each over
+            # brl_.begin()/end() resp. rbegin()/rend(); its body (or the lambda) applies the link function `fn`
+            def applies_fn(nodes):
+                return any(x["k"] == "BinaryOperator" and x.get("op") in (".*", "->*") for x in nodes) or \
+                    any(x["k"] in ("CXXMemberCallExpr", "CallExpr") and x.get("indirect") for x in nodes)
+            trav = []          # (anchor node, direction, applies fn)
+            for n in f.walk():
+                if n["k"] in ("ForStmt", "CXXForRangeStmt", "WhileStmt"):
+                    body_nodes = list(walk([x for x in n.get("c", []) if x is not None][-1]))
+                    head = " ".join(render(x) for x in n.get("c", [])[:-1] if x is not None)
+                    if "brl_" not in " ".join(x.get("name", "") for x in walk(n) if x["k"] == "MemberExpr"):
+                        continue
+                    direction = "reverse" if ("rbegin" in head or "rend" in head or "--" in head) else "forward"
+                    trav.append((n, direction, applies_fn(body_nodes) or bool([x for x in body_nodes if x["k"] in ("CXXMemberCallExpr", "CallExpr")])))
+                elif n["k"] == "CallExpr" and (n.get("callee") or "").split("::")[-1] == "for_each" and len(call_args(n)) == 3:
+                    a0, a1 = render(call_args(n)[0]).replace(" ", ""), render(call_args(n)[1]).replace(" ", "")
+                    if "brl_" not in a0:
+                        continue
+                    direction = "reverse" if ("rbegin()" in a0 and "rend()" in a1) else "forward" if (a0.endswith(".begin()") and a1.endswith(".end()")) else "?"
+                    lam = [g for g in F.funcs if g.qn == f.qn + "::(lambda)::operator()" and not g.is_dependent()]
+                    trav.append((n, direction, any(applies_fn(list(g.walk())) or bool([x for x in g.walk() if x["k"] in ("CXXMemberCallExpr", "CallExpr", "CXXOperatorCallExpr")]) for g in lam)))
             want_target = "src_" if dirn == "Presolve" else "dest_"
-            ok = len(cl) == 1 and len(asg) == 1 and len(loops) == 1 and render(call_args(asg[0])[0]) == want_target and \
-                render(call_args(asg[0])[1]) == f.params[1]["name"] and f.cfg.dominates(cl[0], asg[0]) and \
-                bool([x for x in walk(loops[0].get("c", [None])[-1]) if x["k"] in ("CXXMemberCallExpr", "CallExpr")]) and \
-                all(f.cfg.dominates(asg[0], x) for x in walk(loops[0].get("c", [None])[-1]) if x["k"] in ("CXXMemberCallExpr", "CallExpr"))
+            ok = len(cl) == 1 and len(asg) == 1 and len(trav) == 1 and render(call_args(asg[0])[0]) == want_target and \
+                render(call_args(asg[0])[1]) == f.params[1]["name"] and f.cfg.dominates(cl[0], asg[0]) and trav[0][2] and \
+                (f.cfg.dominates(asg[0], trav[0][0]) if trav[0][0]["k"] == "CallExpr" else
+                 all(f.cfg.dominates(asg[0], x) for x in walk(trav[0][0].get("c", [None])[-1]) if x["k"] in ("CXXMemberCallExpr", "CallExpr")))
             p1.check(ok, key + "|clean-assign-loop", short_loc(f.loc), "CleanUpValueNodes(), then %s = values, then the link loop" % want_target,
                      "the nodes are not cleaned before `%s` is assigned and the links are run: values of an earlier transfer leak into this one" % want_target)
             rets = [r for r in f.walk() if r["k"] == "ReturnStmt"]
             want_ret = "dest_" if dirn == "Presolve" else "src_"
             p1.check(len(rets) == 1 and any(x.get("name") == want_ret for x in walk(rets[0])), key + "|returns", short_loc(f.loc),
                      "returns %s" % want_ret)
-            if loops:
-                lp = loops[0]
-                if dirn == "Presolve":
-                    okd = lp["k"] == "CXXForRangeStmt" and any(x.get("name") == "brl_" for x in walk(lp.get("c", [])[1] if lp["c"][0] is None else lp["c"][0]))
-                    okd = lp["k"] == "CXXForRangeStmt" and "brl_" in " ".join(x.get("name", "") for x in walk(lp) if x["k"] == "MemberExpr")
-                else:
-                    txt = " ".join(c.get("callee", "") for c in walk(lp) if c["k"] == "CXXMemberCallExpr")
-                    okd = lp["k"] == "ForStmt" and "rbegin" in txt and "rend" in txt
-                p1.check(okd, key + "|direction", short_loc(lp.get("l")), "%s order over brl_" % ("forward" if dirn == "Presolve" else "reverse"),
+            if trav:
+                okd = trav[0][1] == ("forward" if dirn == "Presolve" else "reverse")
+                p1.check(okd, key + "|direction", short_loc(trav[0][0].get("l")), "%s order over brl_" % ("forward" if dirn == "Presolve" else "reverse"),
                          "the link chain is not traversed %s" % ("forward" if dirn == "Presolve" else "in reverse"))
     for k_ in KINDS:
         for dirn in ("Presolve", "Postsolve"):
@@ -436,34 +450,50 @@ def run(rep, ctx):
     t3 = rep.rule("C04.T3", "TABLE", "IIS postsolve of range -> equality+slack: exactly one status reaches the range (the slack's, reversed low<->upp, if the slack is flagged; else the row's)", floor=2)
     for f in all_of("mp::pre::RangeCon2Slack::PostsolveIISEntry")[:2]:
         tag = "Quad" if "QuadAndLinTerms" in f.full else "Lin"
-        sets = [c for c in calls(f, name="SetInt") if render(call_args(c)[1]).endswith("CON_SRC")]
-        ok = len(sets) == 2
-        why = "%d writes to the range's status" % len(sets)
-        if ok:
-            a, b = sets
-            excl = not f.cfg.before(a, b) and not f.cfg.before(b, a)
-            throws = [x["i"] for x in f.walk() if x["k"] == "CXXThrowExpr"]
-            covered = f.cfg.path_avoiding(None, "exit", [a["i"], b["i"]] + throws, from_entry=True) is None
-            ok = excl and covered
-            why = "the two writes are %s" % ("not exclusive: the node keeps the larger of the two codes, so the row's status can override the slack's" if not excl else "not on every path")
-            vals = sorted(render(call_args(c)[2]).replace(" ", "") for c in sets)
-            ok = ok and any(v.endswith("CON_TARGET)") for v in vals) and any(v == "slk_iis" for v in vals)
-        t3.check(ok, "one-status|" + tag, short_loc(f.loc), "exactly one of {reversed slack status, row status} is written, on every path", why)
-        sw = [n for n in f.walk() if n["k"] == "SwitchStmt"]
-        okm = len(sw) == 1
-        if okm:
-            secs = switch_sections(sw[0])
-            names = {}
-            for lab, sec in secs.items():
-                asg = [render(kids(x)[1]).split("::")[-1].rstrip(")").replace("(int)", "") for st in sec for x in walk(st) if x["k"] == "BinaryOperator" and x.get("op") == "="]
-                thr = any(x["k"] == "CXXThrowExpr" for st in sec for x in walk(st))
-                names[lab] = ("throw" if thr else (asg[0] if asg else "keep"))
-            ev = F.enum_values("mp::IISStatus") or {}
-            inv = {v: k for k, v in ev.items()}
-            got = {inv.get(k, k): v for k, v in names.items()}
-            okm = got.get("low") == "upp" and got.get("upp") == "low" and got.get("fix") == "keep" and got.get("default") == "throw"
-            why2 = str(got)
-        t3.check(okm, "reversal|" + tag, short_loc(f.loc), "slack low -> range upp, upp -> low, fix -> fix, anything else is refused", why2 if sw else "no switch")
+        # case evaluation (the reversal may live in the function or in a helper): the status written to the range as a
+        # function of the slack status s and the row status r
+        ev = F.enum_values("mp::IISStatus") or {}
+        low, upp, fix = ev.get("low"), ev.get("upp"), ev.get("fix")
+        if None in (low, upp, fix):
+            raise AnalysisBroken("C04.T3: enum mp::IISStatus not found")
+        ROW = 7777
+        table, writes_per_case = {}, {}
+        other = max(ev.values()) + 11
+        for s_ in (0, low, upp, fix, other):
+            written = []
+
+            def atom(t, n, env, s_=s_, written=written):
+                if n["k"] in ("CallExpr", "CXXMemberCallExpr"):
+                    nm_ = (n.get("callee") or "").split("::")[-1]
+                    a_ = [render(x).replace(" ", "") for x in call_args(n)]
+                    if nm_ == "GetInt" and len(a_) == 2:
+                        return s_ if a_[1].endswith("VAR_SLK") else ROW if a_[1].endswith("CON_TARGET") else None
+                    if nm_ == "SetInt" and len(a_) == 3:
+                        written.append((a_[1].split("::")[-1], mi.expr(call_args(n)[2], env)))
+                        return 0
+                return None
+            mi = MiniInt(F, atom)
+            try:
+                mi.run(kids(f.body), {})
+                res = "none"
+            except CaseThrow:
+                res = "throw"
+            except Exception as e:
+                if e.__class__.__name__ == "_CaseReturn":
+                    res = "none"
+                else:
+                    raise
+            w_ = [v for k_, v in written if k_ == "CON_SRC"]
+            writes_per_case[s_] = len(w_)
+            table[s_] = "throw" if res == "throw" and not w_ else (w_[-1] if w_ else "nothing")
+        want_tab = {0: ROW, low: upp, upp: low, fix: fix, other: "throw"}
+        ok = table == want_tab and all(writes_per_case[k_] == (0 if want_tab[k_] == "throw" else 1) for k_ in want_tab)
+        names_ = {v: k for k, v in ev.items()}
+        show = {names_.get(k_, "row-only" if k_ == 0 else "other"): ("row status" if v == ROW else names_.get(v, v)) for k_, v in table.items()}
+        t3.check(ok, "one-status|" + tag, short_loc(f.loc), "exactly one of {reversed slack status, row status} is written, on every path",
+                 "status written to the range by slack status: %s (writes per case %s)" % (show, writes_per_case))
+        t3.check(table.get(low) == upp and table.get(upp) == low and table.get(fix) == fix and table.get(other) == "throw", "reversal|" + tag, short_loc(f.loc),
+                 "slack low -> range upp, upp -> low, fix -> fix, anything else is refused", str(show))
 
     t2 = rep.rule("C04.T2", "GUARD", "node sizing: vectors are brought to the declared size before they are indexed", floor=6)
     for f in all_of("mp::pre::ValueNode::operator="):
